@@ -135,7 +135,8 @@ PROPS = {
                         'hypotheses of T13_no_abort / T13b / T13_exactly_once / T13_ordered_*: the caller program respects the API contract (prog_wf, executable) and a signal wakes only a thread that is blocked on a condition variable (sched_wf); engine pl checks both on every trace',
                         'hypotheses of T13d_fair (no hang): additionally the program ends with the destruction of the pool, 1 <= pool size < 2^64, and every signal wakes a waiter of that condition variable if one exists (sched_fair = the guarantee of pthread_cond_signal; spurious wake-ups and the choice of the waiter stay arbitrary); engine pl evaluates the extracted checker wake_fairb (proved sound) at every signal step of every trace',
                         'no-hang is proved on the LTS as: a state where no thread can run is a state where every thread has exited (T13d_fair); that the scheduler eventually runs an enabled thread (fairness of the OS scheduler) is outside any model; without sched_fair the statement is machine-checked false (T13d_refuted); engine pl reports every deadlock of the real code on the explored schedules',
-                        'the writer/sorter clauses (byte-identical file, same entries) are checked with real threads by engines wr and so over pools 0..8; their proof is the composition T13b + purity of the compress/write-chunk jobs, not yet written'],
+                        'the writer/sorter clauses: T13w_* state the pooled writer as a deferred writer (caller part / handler part of writer.c, the job = snapshot of options, last key and raw block) - the split follows _mtbl_writer_flush, _compress_block_wrapper and _write_data_block_wrapper, which are source-tied; T13s_* compose T13_exactly_once with T06e / T06f. That the C handler really runs only on the handler thread and touches only the handler-side fields is the C14 matter (ThreadSanitizer); engines wr and so also compare pooled and unpooled output with real threads over pools 0..8',
+                        'T13s_pooled_sorter_same_entries needs a commutative merge function (machine-checked necessary: T13s_needs_commutativity; without it the output still is a correct fold per key, T13s_pooled_sorter)'],
         'explanation': 'LTS of threadpool.c at pthread-operation granularity (model/Pool.v). Engine pl: the real threadpool.c under controlled schedules - default, every single preemption of it, seeded random with random signal targets and spurious wake-ups, pairs of preemptions (thorough) - replayed on the LTS with the enabled-thread set compared after every step; deadlock, assertion failure, lost/duplicated/reordered results and too many workers are violations.',
     },
     'C14': {
